@@ -225,6 +225,9 @@ def run(ctx) -> None:
     ctx.floor('R-PICKLE.reduce', nred, 1)
 
     C08.eqhash_agreement(ctx, ('forml.io.asset', 'forml.application'), floor=4)
+    # what a selector remembers (picked instance, cache, lock, counters) is its own: a container bound in the class body and
+    # written through self is shared by every selector of the process - Explicit(1.0) would answer with Latest's pick
+    shared.r_perinstance(ctx, [c for c in ctx.prog.classes.values() if c.module.name.startswith('forml.application')])
     slot_memos(ctx)
     explicit(ctx)
     latest(ctx)
